@@ -65,7 +65,6 @@ func (r *countingReader) Read(p []byte) (int, error) {
 	return n, nil
 }
 
-
 // msReader is a diam.MultistreamReader over a byte string delivered as one
 // stream of an association (the path ReadMessage takes on SCTP connections).
 type msReader struct {
@@ -101,14 +100,14 @@ func (r *msReader) SetCurrentStream(s uint) uint { return r.stream }
 
 // shapes for Unmarshal
 type c03Shape1 struct {
-	OriginHost  string           `avp:"Origin-Host"`
+	OriginHost  string                    `avp:"Origin-Host"`
 	OriginRealm datatype.DiameterIdentity `avp:"Origin-Realm"`
-	HostIP      []net.IP         `avp:"Host-IP-Address"`
-	VendorID    uint32           `avp:"Vendor-Id"`
-	Product     *string          `avp:"Product-Name"`
-	State       *diam.AVP        `avp:"Origin-State-Id"`
+	HostIP      []net.IP                  `avp:"Host-IP-Address"`
+	VendorID    uint32                    `avp:"Vendor-Id"`
+	Product     *string                   `avp:"Product-Name"`
+	State       *diam.AVP                 `avp:"Origin-State-Id"`
 	VSA         []struct {
-		Vendor int `avp:"Vendor-Id"`
+		Vendor int     `avp:"Vendor-Id"`
 		Auth   *uint32 `avp:"Auth-Application-Id"`
 		Acct   []int64 `avp:"Acct-Application-Id"`
 	} `avp:"Vendor-Specific-Application-Id"`
@@ -118,22 +117,22 @@ type c03Shape1 struct {
 	Sess    []byte      `avp:"Session-Id"`
 }
 type c03Shape2 struct {
-	Oct   datatype.OctetString `avp:"G-Octets"`
-	U     []string             `avp:"G-UTF8"`
-	I32   int32                `avp:"G-I32"`
-	I64   *int64               `avp:"G-I64"`
-	U32   []uint32             `avp:"G-U32"`
-	U64   uint64               `avp:"G-U64"`
-	F32   float32              `avp:"G-F32"`
-	F64   []float64            `avp:"G-F64"`
-	E     datatype.Enumerated  `avp:"G-Enum"`
-	T     time.Time            `avp:"G-Time"`
-	TT    datatype.Time        `avp:"G-Time"`
-	A     net.IP               `avp:"G-Addr"`
-	AA    []datatype.Address   `avp:"G-Addr"`
-	V4    datatype.IPv4        `avp:"G-IPv4"`
-	V6    net.IP               `avp:"G-IPv6"`
-	G     struct {
+	Oct datatype.OctetString `avp:"G-Octets"`
+	U   []string             `avp:"G-UTF8"`
+	I32 int32                `avp:"G-I32"`
+	I64 *int64               `avp:"G-I64"`
+	U32 []uint32             `avp:"G-U32"`
+	U64 uint64               `avp:"G-U64"`
+	F32 float32              `avp:"G-F32"`
+	F64 []float64            `avp:"G-F64"`
+	E   datatype.Enumerated  `avp:"G-Enum"`
+	T   time.Time            `avp:"G-Time"`
+	TT  datatype.Time        `avp:"G-Time"`
+	A   net.IP               `avp:"G-Addr"`
+	AA  []datatype.Address   `avp:"G-Addr"`
+	V4  datatype.IPv4        `avp:"G-IPv4"`
+	V6  net.IP               `avp:"G-IPv6"`
+	G   struct {
 		O  []byte `avp:"G-Octets"`
 		GG *struct {
 			O string `avp:"G-Octets"`
